@@ -86,7 +86,7 @@ TOLERANCES = {
     "centre-error-px": 1.0,
     "center-priors-relation": 1e-12,
 }
-TIMEOUT = 180
+TIMEOUT = 600
 
 SHAPES = {"quick": [(a, b) for a in range(3, 6) for b in range(3, 6)],
           "thorough": [(a, b) for a in range(3, 9) for b in range(3, 9)]}
